@@ -297,23 +297,97 @@ theorem openMS_good (hH : HashOK H) {S : Tree → Prop} {names : List Name} {hd 
   rw [hlat]
   exact hl
 
-/-- A fresh disk: `LoadLatestVersion` gives empty substores at version 0. -/
-theorem openMS_fresh {S : Tree → Prop} {names : List Name} {d : Disk}
-    (g : GoodDiskMS H S names (fun _ => []) 0 d) :
-    openMS H d names = some ⟨{}, names.map (fun n => (n, MTree.new (d.storeDB n))), d.cinfos, d.latest⟩ := by
+theorem goodTree_new {S : Tree → Prop} {db : NDB} (g : GoodDisk H S [] db) : GoodTree H S [] (MTree.new db) := by
+  refine ⟨g, rfl, rfl, Int.le_refl _, ?_, ?_⟩
+  · simp only [MTree.latest, MTree.new, if_true]
+    exact g.latestOnDisk
+  · intro v hv; simp [MTree.new] at hv
+
+/-- One substore under `rootmulti.LoadVersion(0)` (fixed code): whatever versions an interrupted first
+commit left on its disk, it comes back empty at version 0 as a good tree for the empty history; a
+substore with nothing on disk is not touched at all. -/
+theorem loadStoreZero_good (hH : HashOK H) {S : Tree → Prop} (hi : Inj H S) {hist : List (Option Tree)} {db : NDB}
+    (g : GoodDisk H S hist db) (hok : HistOK S hist) :
+    ∃ t, loadStoreZero db = some t ∧ GoodTree H S [] t ∧ t.version = 0 ∧ t.root = none ∧ (hist = [] → t = MTree.new db) := by
+  by_cases hne : hist = []
+  · subst hne
+    refine ⟨MTree.new db, ?_, goodTree_new g, rfl, rfl, fun _ => rfl⟩
+    unfold loadStoreZero loadStore
+    rw [loadVersion_empty (t0 := MTree.new db) g 0]
+    rfl
+  · have hl1 : 1 ≤ (hist.length : Int) := by
+      cases hist with
+      | nil => exact absurd rfl hne
+      | cons a l => simp; omega
+    obtain ⟨r, hr, hl⟩ := loadVersion_at hH (t0 := MTree.new db) g hok 0 hist.length hl1 (by omega) (Or.inr ⟨rfl, rfl⟩)
+    let t : MTree := recovered db hist.length r
+    have hload : loadStore db 0 = some t := by simp only [loadStore, hl, Option.map_some]; rfl
+    -- Rollback(0)
+    obtain ⟨r2, hr2, hl2⟩ := loadVersion_at hH (t0 := t) g hok 0 hist.length hl1 (by omega) (Or.inr ⟨rfl, rfl⟩)
+    let t1 : MTree := ⟨hist.length, r2, r2, loadedVersions t, 0, hist.length, db⟩
+    have hlat : t1.latest = hist.length := by
+      simp only [MTree.latest, t1, if_true]
+      exact g.latestOnDisk
+    obtain ⟨db', hdel, g'⟩ := deleteVersionsFrom_good hH hi (t := t1) g hok hlat 0 (by omega)
+    simp only [List.take_zero] at g'
+    have hover : loadVersionForOverwriting t 0 = some ((⟨hist.length, r2, r2, (loadedVersions t).filter fun v => decide (v ≤ 0), hist.length, hist.length, db'⟩ : MTree), (hist.length : Int)) := by
+      unfold loadVersionForOverwriting
+      simp only [hl2]
+      have e : (0 : Int) + 1 = ((0 : Nat) : Int) + 1 := by simp
+      have e2 : ({ version := (hist.length : Int), root := r2, lastSaved := r2, versions := loadedVersions t, ndbLatest := t.ndbLatest,
+                   persistedTo := (hist.length : Int), db := t.db } : MTree) = t1 := rfl
+      rw [e2, e, hdel]
+    refine ⟨MTree.new db', ?_, goodTree_new g', rfl, rfl, fun e => absurd e hne⟩
+    unfold loadStoreZero
+    rw [hload]
+    have hv : ¬ t.version = 0 := by simp only [t, recovered]; omega
+    simp only [hv, if_false, hover]
+    unfold loadStore
+    rw [loadVersion_empty (t0 := MTree.new db') g' 0]
+    rfl
+
+/-- `LoadLatestVersion` on a disk where no multistore commit has completed (whatever an interrupted
+first commit left in the substores): a good multistore at version 0. -/
+theorem openMS_zero (hH : HashOK H) {S : Tree → Prop} (hi : Inj H S) {names : List Name} {hd : Name → List (Option Tree)} {d : Disk}
+    (g : GoodDiskMS H S names hd 0 d) :
+    ∃ s0, openMS H d names = some s0 ∧ GoodMS H S names (fun _ => []) 0 s0 ∧
+      ∀ n ∈ names, ∃ t, aget n s0.stores = some t ∧ t.version = 0 ∧ t.root = none ∧ (hd n = [] → t = MTree.new (d.storeDB n)) := by
   have hlat : d.latestVersion = 0 := by
     unfold Disk.latestVersion
     rw [g.recs.latest]; simp
-  unfold openMS loadMS
-  rw [hlat]
-  simp only [if_true]
-  rw [mapM_some _ (fun n => (n, MTree.new (d.storeDB n)))]
-  intro n hn
-  obtain ⟨gd, _, _⟩ := g.store n hn
-  simp only [loadStore]
-  rw [loadVersion_empty (t0 := MTree.new (d.storeDB n)) gd 0]
-  rfl
+  let f : Name → MTree := fun n => (loadStoreZero (d.storeDB n)).getD default
+  have hf : ∀ n ∈ names, loadStoreZero (d.storeDB n) = some (f n) ∧ GoodTree H S [] (f n) ∧ (f n).version = 0 ∧ (f n).root = none ∧
+      (hd n = [] → f n = MTree.new (d.storeDB n)) := by
+    intro n hn
+    obtain ⟨gd, hok, _⟩ := g.store n hn
+    obtain ⟨t, h1, h2, h3, h4, h5⟩ := loadStoreZero_good hH hi gd hok
+    have : f n = t := by simp only [f, h1, Option.getD_some]
+    rw [this]; exact ⟨h1, h2, h3, h4, h5⟩
+  refine ⟨⟨{}, names.map (fun n => (n, f n)), d.cinfos, d.latest⟩, ?_, ?_, ?_⟩
+  · unfold openMS loadMS
+    rw [hlat]
+    simp only [if_true]
+    rw [mapM_some _ (fun n => (n, f n))]
+    intro n hn
+    rw [(hf n hn).1]; rfl
+  · refine ⟨g.nodup, by simp [List.map_map, Function.comp_def], ?_, g.recs, by simp⟩
+    intro n hn
+    refine ⟨f n, ?_, (hf n hn).2.1, histOK_nil S, rfl⟩
+    rw [aget_map_names f names n, if_pos hn]
+  · intro n hn
+    refine ⟨f n, ?_, (hf n hn).2.2⟩
+    rw [aget_map_names f names n, if_pos hn]
 
+/-- A fresh disk: `LoadLatestVersion` gives empty substores at version 0. -/
+theorem openMS_fresh (hH : HashOK H) {S : Tree → Prop} (hi : Inj H S) {names : List Name} {d : Disk}
+    (g : GoodDiskMS H S names (fun _ => []) 0 d) :
+    ∃ s0, openMS H d names = some s0 ∧ GoodMS H S names (fun _ => []) 0 s0 := by
+  obtain ⟨s0, h1, h2, _⟩ := openMS_zero hH hi g
+  exact ⟨s0, h1, h2⟩
+
+theorem GoodMS.congr {S : Tree → Prop} {names : List Name} {hs hs' : Name → List (Option Tree)} {k : Nat} {s : MStore}
+    (g : GoodMS H S names hs k s) (h : ∀ n ∈ names, hs n = hs' n) : GoodMS H S names hs' k s :=
+  ⟨g.nodup, g.keys, fun n hn => by rw [← h n hn]; exact g.tree n hn, g.recs, g.lcid⟩
 
 /-! ### Commit -/
 
@@ -688,17 +762,9 @@ theorem freshDisk_good (S : Tree → Prop) (names : List Name) (hnd : names.Nodu
   · intro v _; simp [freshDisk]
 
 /-- `LoadLatestVersion` on a fresh disk is a good multistore at version 0. -/
-theorem openMS_fresh_good (S : Tree → Prop) (names : List Name) (hnd : names.Nodup) :
-    ∃ s0, openMS H (freshDisk names) names = some s0 ∧ GoodMS H S names (fun _ => []) 0 s0 := by
-  have gd := freshDisk_good (H := H) S names hnd
-  refine ⟨_, openMS_fresh gd, hnd, by simp [List.map_map, Function.comp_def], ?_, gd.recs, by simp⟩
-  intro n hn
-  have hdb : (freshDisk names).storeDB n = {} := by
-    unfold Disk.storeDB freshDisk
-    simp only
-    rw [aget_map_names (fun _ => ({} : NDB)) names n, if_pos hn]; rfl
-  refine ⟨MTree.new {}, ?_, goodTree_fresh S, histOK_nil S, rfl⟩
-  rw [aget_map_names (fun n => MTree.new ((freshDisk names).storeDB n)) names n, if_pos hn, hdb]
+theorem openMS_fresh_good (hH : HashOK H) (S : Tree → Prop) (hi : Inj H S) (names : List Name) (hnd : names.Nodup) :
+    ∃ s0, openMS H (freshDisk names) names = some s0 ∧ GoodMS H S names (fun _ => []) 0 s0 :=
+  openMS_fresh hH hi (freshDisk_good (H := H) S names hnd)
 
 theorem runMS_good (hH : HashOK H) {S : Tree → Prop} (hi : Inj H S) {names : List Name} :
     ∀ (blocks : List (List Name × (Name → Option Tree))) (hs : Name → List (Option Tree)) (k : Nat) (s : MStore),
